@@ -98,6 +98,13 @@ func (nd Node) ver(phase int) VBeh {
 
 // normalise: the canonical form of an input (what the Gallina term is printed from).
 func normalise(in Input) Input {
+	if in.Mode != "submit" {
+		in.DeadlineMs = 0
+	}
+	if in.DeadlineMs == 0 {
+		in.Deaf = false
+		in.Cancelled = false
+	}
 	for i := range in.Nodes {
 		nd := &in.Nodes[i]
 		if !nd.hasVersionEndpoint() {
@@ -132,6 +139,15 @@ type Input struct {
 	Variant   int      `json:"variant,omitempty"` // proposal: fork version / blinded
 	Warm      int      `json:"warm,omitempty"`    // submit: identical submissions made on the same service instance before the observed one
 	Tags      []string `json:"tags,omitempty"`
+	// submit: the context the caller passes to the observed Submit<Kind> carries a deadline this many
+	// fake ms after the call (0 = a context without deadline); the warm-up submissions never have one
+	DeadlineMs uint64 `json:"deadline_ms,omitempty"`
+	// submit, with a deadline: the scripted nodes ignore the request context in every method (a
+	// submitter need not honour it); otherwise they honour it the way the HTTP client does
+	Deaf bool `json:"deaf,omitempty"`
+	// submit, with a deadline: the caller's context carries no deadline but is cancelled by the caller
+	// at that instant (ctx.Deadline() says "none"; everything else is the same, so the Coq case is too)
+	Cancelled bool `json:"cancelled,omitempty"`
 }
 
 type Call struct {
@@ -295,6 +311,7 @@ type nodeCore struct {
 	reached  bool // the node has been handed (a part of) the payload of the current submission
 	calls    []Call
 	cuts     []CutRec
+	deaf     bool // the node ignores the request context
 }
 
 // noteCut: a request to this node ended because its context was finished by the submitter (the
@@ -326,6 +343,9 @@ func (n *nodeCore) behFor(ids []uint64) Beh {
 }
 
 func (n *nodeCore) do(ctx context.Context, ids []uint64) error {
+	if n.deaf {
+		ctx = context.Background()
+	}
 	n.rec.mu.Lock()
 	if n.rec.closed {
 		n.rec.mu.Unlock()
@@ -465,6 +485,9 @@ func (n *nodeCore) SubmitProposalPreparations(ctx context.Context, xs []*apiv1.P
 type nodeV struct{ *nodeCore }
 
 func (n nodeV) NodeVersion(ctx context.Context, _ *api.NodeVersionOpts) (*api.Response[string], error) {
+	if n.deaf {
+		ctx = context.Background()
+	}
 	n.rec.mu.Lock()
 	if n.rec.closed {
 		n.rec.mu.Unlock()
@@ -589,6 +612,10 @@ func horizon(in Input) time.Duration {
 			total += v.Delay
 		}
 	}
+	// a call that (wrongly) waits for the caller's deadline is seen to return then
+	if in.DeadlineMs+1 > total {
+		total = in.DeadlineMs + 1
+	}
 	return time.Duration(total) * time.Millisecond
 }
 
@@ -609,7 +636,7 @@ func runSubmit(t *testing.T, in Input) Obs {
 		mSS := map[string]eth2client.SyncCommitteeSubscriptionsSubmitter{}
 		mPP := map[string]eth2client.ProposalPreparationsSubmitter{}
 		for i, nd := range in.Nodes {
-			cores[i] = &nodeCore{rec: rec, spec: nd, proposal: proposal, firstSeq: -1}
+			cores[i] = &nodeCore{rec: rec, spec: nd, proposal: proposal, firstSeq: -1, deaf: in.Deaf && in.DeadlineMs > 0}
 			s := asSubmitter(cores[i])
 			name := fmt.Sprintf("node%d:5052", i)
 			mAtt[name], mProp[name], mAgg[name], mSM[name], mSC[name], mBS[name], mSS[name], mPP[name] = s, s, s, s, s, s, s, s
@@ -631,7 +658,7 @@ func runSubmit(t *testing.T, in Input) Obs {
 		if err != nil {
 			t.Fatalf("multinode constructor: %v", err)
 		}
-		submit := func() error {
+		submit := func(ctx context.Context) error {
 			var err error
 			n := in.Len
 			switch in.Kind {
@@ -695,9 +722,9 @@ func runSubmit(t *testing.T, in Input) Obs {
 		// every scripted answer that is ever given has been given is reported as such (it can only be
 		// waiting for a node that never answers) instead of blocking the scenario.
 		pending := []chan error{}
-		within := func() (error, bool) {
+		within := func(ctx context.Context) (error, bool) {
 			ch := make(chan error, 1)
-			go func() { ch <- submit() }()
+			go func() { ch <- submit(ctx) }()
 			tm := time.NewTimer(horizon(in))
 			select {
 			case err := <-ch:
@@ -715,7 +742,7 @@ func runSubmit(t *testing.T, in Input) Obs {
 			rec.mu.Unlock()
 			for k := 0; k < in.Warm && !stuck; k++ {
 				t0 := time.Now()
-				_, returned := within()
+				_, returned := within(ctx)
 				stuck = !returned
 				// let every warm-up call that ever returns return (only hanging calls stay behind)
 				if d := horizon(in) - time.Since(t0); d > 0 {
@@ -735,7 +762,20 @@ func runSubmit(t *testing.T, in Input) Obs {
 		}
 		if !stuck {
 			var returned bool
-			err, returned = within()
+			cctx := ctx
+			if in.DeadlineMs > 0 {
+				// the caller's own deadline, counted from the observed call
+				var ccancel context.CancelFunc
+				if in.Cancelled {
+					cctx, ccancel = context.WithCancel(ctx)
+					tm := time.AfterFunc(time.Duration(in.DeadlineMs)*time.Millisecond, ccancel)
+					defer tm.Stop()
+				} else {
+					cctx, ccancel = context.WithTimeout(ctx, time.Duration(in.DeadlineMs)*time.Millisecond)
+				}
+				defer ccancel()
+			}
+			err, returned = within(cctx)
 			stuck = !returned
 		}
 		obs.Success = err == nil && !stuck
@@ -1168,7 +1208,11 @@ func term(id uint64, in Input, obs Obs) string {
 		}
 		o := Record("o_panic", Bool(obs.Panic), "o_success", Bool(obs.Success), "o_ret", N(obs.Ret), "o_nodes", List(onodes),
 			"o_cut", List(ocut))
-		body = App("CSubmit", inp, List(order), o)
+		cl := None()
+		if in.DeadlineMs > 0 {
+			cl = Some(Record("cl_deadline", N(in.DeadlineMs), "cl_deaf", Bool(in.Deaf)))
+		}
+		body = App("CSubmit", inp, cl, List(order), o)
 	}
 	return Record("c_id", N(id), "c_body", body)
 }
@@ -1543,7 +1587,73 @@ func genSubmit(r *Rand) Input {
 		}
 	}
 	genVersions(r, &in)
+	genDeadline(r, &in)
 	return in
+}
+
+// genDeadline: the caller's context carries a deadline of its own, different from the configured
+// timeout (the callers of the submitter pass contexts bounded by the slot's schedule): beyond the
+// timeout (the call must still return by the timeout), equal to it, or before it (a node that ignores
+// the context and accepts between the two must still make the call succeed; nodes that honour it are
+// cut by the caller, and the call still answers at the timeout or with the first acceptance).  Drawn
+// last, so the rest of the scenario is what it would have been without it.
+func genDeadline(r *Rand, in *Input) {
+	if !r.Chance(1, 2) {
+		return
+	}
+	T := in.TimeoutMs
+	nd := in.Nodes
+	switch fam := r.Intn(10); {
+	case fam < 5:
+		in.Tags = append(in.Tags, "deadline-long")
+		switch r.Intn(4) {
+		case 0:
+			in.DeadlineMs = T + uint64(r.Range(1, 20))
+		case 1:
+			in.DeadlineMs = T * uint64(r.Range(2, 20))
+		default:
+			in.DeadlineMs = T + uint64(r.Range(21, 3000))
+		}
+		in.Deaf = r.Chance(1, 4)
+		if r.Chance(1, 2) {
+			// nobody accepts in time: the timeout alone ends the call
+			for i := range nd {
+				b := &nd[i].Default
+				if b.Hang || b.Err != nil || b.Delay >= T {
+					continue
+				}
+				switch r.Intn(3) {
+				case 0:
+					*b = Beh{Hang: true}
+				case 1:
+					b.Delay = T + uint64(r.Range(1, 300))
+				default:
+					b.Err = genErr(r, in.Kind, nd[i].Client, "real")
+				}
+			}
+		}
+	case fam < 6:
+		in.Tags = append(in.Tags, "deadline-equal")
+		in.DeadlineMs = T
+		in.Deaf = r.Chance(1, 4)
+	default:
+		in.Tags = append(in.Tags, "deadline-short")
+		in.DeadlineMs = uint64(r.Range(1, int(T)-2))
+		if r.Chance(1, 3) {
+			in.DeadlineMs = uint64(r.Range(int(T)/2, int(T)-2))
+		}
+		in.Deaf = r.Chance(2, 3)
+		if r.Chance(3, 4) {
+			// one node plainly accepts between the caller's deadline and the timeout
+			j := r.Intn(len(nd))
+			nd[j].Default = Beh{Delay: uint64(r.Range(int(in.DeadlineMs)+1, int(T)-1))}
+			if r.Chance(1, 2) {
+				nd[j].Ver = nil
+			}
+		}
+	}
+	// the caller cancels at that instant instead of having set a deadline
+	in.Cancelled = r.Chance(1, 5)
 }
 
 // genVersions scripts the nodes' version endpoints (helpers.go serviceInfo asks every node that has
@@ -1741,6 +1851,21 @@ func inputTags(in Input) []string {
 	if in.Conc < int64(len(in.Nodes)) {
 		add("c<n")
 	}
+	switch {
+	case in.DeadlineMs == 0:
+	case in.DeadlineMs > in.TimeoutMs:
+		add("caller-deadline:after-timeout")
+	case in.DeadlineMs == in.TimeoutMs:
+		add("caller-deadline:at-timeout")
+	default:
+		add("caller-deadline:before-timeout")
+	}
+	if in.Deaf {
+		add("nodes-ignore-context")
+	}
+	if in.Cancelled {
+		add("caller-cancels")
+	}
 	if in.Len == 0 {
 		add("empty-payload")
 	}
@@ -1837,6 +1962,9 @@ func nontrivial(in Input) bool {
 	if in.Len == 0 && in.Kind != "beaconsubs" {
 		return false
 	}
+	if in.DeadlineMs > 0 {
+		return true
+	}
 	for _, nd := range in.Nodes {
 		if nd.Default.Hang || nd.Default.Err != nil || nd.Default.Delay >= in.TimeoutMs || len(nd.Over) > 0 {
 			return true
@@ -1857,7 +1985,7 @@ func TestC08(t *testing.T) {
 		return
 	}
 	col := NewCollector("C08", "Check.C08",
-		"submit scenarios: kind x 1-5 scripted nodes (accept / reject with a structured error body / slow / hang, per chunk for attestations; every method fails with the context's error once its context is finished; the version endpoint serviceInfo queries answers at once, late or never, before and after the payload is handed over) x concurrency x payload length, run on the real multinode service in a synctest bubble; plus util.Scatter and the immediate submitter. Non-trivial = the submission passes the empty-payload guard and at least one node does something other than answer its version request at once and accept before the timeout (scatter/immediate: non-empty input); distinct by input text")
+		"submit scenarios: kind x 1-5 scripted nodes (accept / reject with a structured error body / slow / hang, per chunk for attestations; every method fails with the context's error once its context is finished; the version endpoint serviceInfo queries answers at once, late or never, before and after the payload is handed over) x concurrency x payload length x the caller's context (without deadline, or with one after / at / before the configured timeout, the nodes then honouring or ignoring it), run on the real multinode service in a synctest bubble; plus util.Scatter and the immediate submitter. Non-trivial = the submission passes the empty-payload guard and at least one node does something other than answer its version request at once and accept before the timeout, or the caller's context has a deadline (scatter/immediate: non-empty input); distinct by input text")
 	n := EnvInt("VERIF_N", 800)
 	thorough := os.Getenv("VERIF_TIER") == "thorough"
 	var ins []Input
@@ -1902,6 +2030,22 @@ func TestC08(t *testing.T) {
 			}
 			if obs[i].NoReturn {
 				col.Count("result:no-return")
+			}
+			switch {
+			case in.DeadlineMs == 0:
+				col.Count("caller-deadline:none")
+			case in.DeadlineMs > in.TimeoutMs:
+				col.Count("caller-deadline:after-timeout")
+			case in.DeadlineMs == in.TimeoutMs:
+				col.Count("caller-deadline:at-timeout")
+			default:
+				col.Count("caller-deadline:before-timeout")
+			}
+			if in.Deaf {
+				col.Count("nodes-ignore-context")
+			}
+			if in.Cancelled {
+				col.Count("caller-cancels")
 			}
 		}
 		if obs[i].Panic {
